@@ -67,7 +67,7 @@ func init() {
 			{Name: "ForceSolidBounds uses the unchecked constructor", File: "model2d/solid.go",
 				Old: "\treturn CheckedFuncSolid(min, max, s.Contains)", New: "\treturn FuncSolid(min, max, s.Contains)", Rule: "GD.RAW", Expect: "ForceSolidBounds"},
 			{Name: "mirrored scale collapses its bounds", File: "model3d/transform.go",
-				Old: "\treturn min.Min(max), max.Max(min)", New: "\tmin = min.Min(max)\n\tmax = max.Max(min)\n\treturn min, max", Rule: "ABSORB", Expect: "ApplyBounds"},
+				Old: "\treturn min.Min(max), max.Max(min)", New: "\tmin = min.Min(max)\n\tmax = max.Max(min)\n\treturn min, max", All: true, Rule: "ABSORB", Expect: "ApplyBounds"},
 			{Name: "sphere bounds use the squared radius", File: "model3d/shapes.go",
 				Old: "return s.Center.AddScalar(-s.Radius)", New: "return s.Center.AddScalar(-s.Radius * s.Radius)", Rule: "UNIT", Expect: "Sphere"},
 			{Name: "collider solid skips its box test", File: "model3d/solid.go",
